@@ -236,7 +236,7 @@ def gen_followup(rng, tables):
 _KINDS = [
     ("create", _create_table, 10), ("alter", _alter, 4), ("index", _index, 2), ("sequence", _sequence, 2),
     ("type", _type, 2), ("schema", _schema, 2), ("comment", _comment_line, 4), ("set", _set_line, 3),
-    ("unsupported", _unsupported, 1), ("regex", _regex_table, 1), ("serde", _serde_table, 1),
+    ("unsupported", _unsupported, 1), ("regex", _regex_table, 2), ("serde", _serde_table, 2),
     ("glued", _glued, 1), ("like", _like_table, 1),
 ]
 
@@ -297,6 +297,24 @@ def same_length_variant(rng, ddl):
         if out != ddl:
             return out
     return ddl
+
+
+def pick_related(rng, src, max_len=6000):
+    """A corpus item from the neighbourhood of another one (the corpus is harvested test module by test module, so
+    neighbours exercise the same dialect features): pairs of scripts that touch the same per-feature state."""
+    if not src or not src.startswith("corpus:"):
+        return None
+    try:
+        i = int(src.split(":")[1].split("+")[0])
+    except ValueError:
+        return None
+    c = core.corpus()
+    for _ in range(10):
+        j = i + rng.choice([-8, -6, -4, -3, -2, -1, 1, 2, 3, 4, 6, 8])
+        if 0 <= j < len(c) and len(c[j]["ddl"]) <= max_len:
+            it = c[j]
+            return {"ddl": it["ddl"], "flags": dict(it["flags"]), "run": dict(it["run"]), "src": "corpus:%d" % j}
+    return None
 
 
 def pick_run_kwargs(rng, modes, base=None):
